@@ -232,13 +232,14 @@ def persistRegistry (s : State) : State × Bool :=
 
 /-- `store_api_key`: change the in-memory map, persist, restore the previous in-memory value when
 persisting failed (the engine's copy is NOT restored). -/
+def storeTarget (s : State) (name : String) (v : Option String) : List (String × String) :=
+  match v with
+  | some k => setKey s.bound name k
+  | none => eraseKey s.bound name
+
 def storeApiKey (s : State) (name : String) (v : Option String) : State × Bool :=
-  let m := match v with
-    | some k => setKey s.bound name k
-    | none => eraseKey s.bound name
-  match persistKeys { s with bound := m } with
-  | (s', true) => (s', true)
-  | (s', false) => ({ s' with bound := s.bound }, false)
+  let r := persistKeys { s with bound := storeTarget s name v }
+  if r.2 then (r.1, true) else ({ r.1 with bound := s.bound }, false)
 
 /-- `register_db` (no shutdown race). Storage failures modelled: a read-only primary and an armed
 fault on the metadata PUT. The engine has already created/opened the database when binding the key
@@ -267,17 +268,17 @@ def registerDb (cfg : Cfg) (s : State) (mode : OpenMode) (name : String) (apiKey
       | _, _ =>
         let s0 := { s with stored := addName s.stored name }
         -- bind the key while the database is still invisible
-        match (match apiKey with
-               | some k => storeApiKey s0 name (some k)
-               | none => (s0, true)) with
-        | (s1, false) =>
+        let b := match apiKey with
+          | some k => storeApiKey s0 name (some k)
+          | none => (s0, true)
+        if !b.2 then
           -- (the registry is untouched on this path)
-          (s1, .error .internal)
-        | (s1, true) =>
-          match persistRegistry { s1 with opened := addName s1.opened name, registry := addName s1.registry name } with
-          | (s2, true) => (s2, .ok (.metadata name))
-          | (s2, false) =>
-            let s3 := { s2 with opened := delName s2.opened name, registry := delName s2.registry name }
+          (b.1, .error .internal)
+        else
+          let p := persistRegistry { b.1 with opened := addName b.1.opened name, registry := addName b.1.registry name }
+          if p.2 then (p.1, .ok (.metadata name))
+          else
+            let s3 := { p.1 with opened := delName p.1.opened name, registry := delName p.1.registry name }
             match apiKey with
             | some _ => ((storeApiKey s3 name none).1, .error .internal)
             | none => (s3, .error .internal)
@@ -289,10 +290,9 @@ def closeDb (cfg : Cfg) (s : State) (name : String) : State × Except ApiError R
   else if !s.opened.contains name && !s.registry.contains name then (s, .error (.dbNotFound name))
   else
     let registered := s.registry.contains name
-    match persistRegistry { s with opened := delName s.opened name, registry := delName s.registry name } with
-    | (s1, true) => (s1, .ok .unit)
-    | (s1, false) =>
-      ((if registered then { s1 with registry := addName s1.registry name } else s1), .error .internal)
+    let p := persistRegistry { s with opened := delName s.opened name, registry := delName s.registry name }
+    if p.2 then (p.1, .ok .unit)
+    else ((if registered then { p.1 with registry := addName p.1.registry name } else p.1), .error .internal)
 
 /-- `require_known_db`. -/
 def knownDb (s : State) (name : String) : Bool :=
@@ -307,9 +307,9 @@ def setDbApiKey (cfg : Cfg) (s : State) (name : String) (key : Option String) (f
   | .error e => (s, .error e)
   | .ok () =>
     if !knownDb s name then (s, .error (.dbNotFound name))
-    else match storeApiKey s name (some k) with
-      | (s', true) => (s', .ok (.keySet name key.isNone))
-      | (s', false) => (s', .error .internal)
+    else
+      let r := storeApiKey s name (some k)
+      if r.2 then (r.1, .ok (.keySet name key.isNone)) else (r.1, .error .internal)
 
 /-- `remove_db_api_key`: answers `false` WITHOUT persisting when the in-memory map has no binding. -/
 def removeDbApiKey (s : State) (name : String) : State × Except ApiError RootResult :=
@@ -317,9 +317,8 @@ def removeDbApiKey (s : State) (name : String) : State × Except ApiError RootRe
   else match lookup s.bound name with
     | none => (s, .ok (.removed false))
     | some _ =>
-      match storeApiKey s name none with
-      | (s', true) => (s', .ok (.removed true))
-      | (s', false) => (s', .error .internal)
+      let r := storeApiKey s name none
+      if r.2 then (r.1, .ok (.removed true)) else (r.1, .error .internal)
 
 /-- `AppState::info` / `scoped_info`. -/
 def scopedInfo (cfg : Cfg) (s : State) (p : Principal) (dbName : String) : RootResult :=
